@@ -65,6 +65,8 @@ enum Step {
     Zero,
     Eintr,
     Fail,
+    /// another error than EIO: 1 EAGAIN, 2 `Error::Timeout`, 3 `Error::Uncategorized` (tokens FA, FT, FU)
+    FailK(u8),
     /// the reader / writer panics (unwinds) in this call; only ever the last entry of a script
     Panic,
 }
@@ -115,6 +117,34 @@ fn lwsym(i: usize) -> Step {
 }
 const N_LWSYM: usize = 4;
 
+/// error-kind scripts (small payloads, every start capacity): reader and writer alphabets with all four error kinds
+const EMENU: [usize; 3] = [1, 2, 4];
+fn esym(i: usize) -> Step {
+    match i {
+        0..=2 => Step::Deliver(EMENU[i]),
+        3 => Step::Deliver(ALL),
+        4 => Step::Zero,
+        5 => Step::Eintr,
+        6 => Step::Fail,
+        7..=9 => Step::FailK(i as u8 - 6),
+        _ => Step::Panic,
+    }
+}
+const N_ESYM: usize = 10;
+const EWMENU: [usize; 2] = [1, 2];
+fn ewsym(i: usize) -> Step {
+    match i {
+        0..=1 => Step::Deliver(EWMENU[i]),
+        2 => Step::Deliver(ALL),
+        3 => Step::Eintr,
+        4 => Step::Zero,
+        5 => Step::Fail,
+        6..=8 => Step::FailK(i as u8 - 5),
+        _ => Step::Panic,
+    }
+}
+const N_EWSYM: usize = 9;
+
 /// Every sequence of length <= `l` over the symbols `0..n_sym`, then every sequence of length < `lp` followed by the
 /// panic symbol (index `n_sym`): a panicking call ends the helper, so it is only ever the last entry.
 fn for_each_script(n_sym: usize, l: usize, lp: usize, mut f: impl FnMut(&[usize])) {
@@ -145,6 +175,7 @@ fn script_string(script: &[Step], writer: bool, out: &mut String) {
             Step::Zero => out.push('Z'),
             Step::Eintr => out.push('I'),
             Step::Fail => out.push('F'),
+            Step::FailK(k) => out.push_str(["F", "FA", "FT", "FU"][*k as usize & 3]),
             Step::Panic => out.push('P'),
         }
     }
@@ -156,6 +187,9 @@ fn parse_script(s: &str) -> Vec<Step> {
             "Z" => Step::Zero,
             "I" => Step::Eintr,
             "F" => Step::Fail,
+            "FA" => Step::FailK(1),
+            "FT" => Step::FailK(2),
+            "FU" => Step::FailK(3),
             "P" => Step::Panic,
             "DALL" | "AALL" => Step::Deliver(ALL),
             "DHALF" => Step::Deliver(HALF),
@@ -169,6 +203,26 @@ fn eintr() -> Error {
 }
 fn eio() -> Error {
     Error::Os { msg: "scripted EIO", code: Errno::EIO }
+}
+const UNCAT_MSG: &str = "scripted uncategorized error";
+const KIND_NAMES: [&str; 4] = ["EIO", "EAGAIN", "Error::Timeout", "Error::Uncategorized"];
+/// the scripted error of kind `k` (0 EIO, 1 EAGAIN, 2 Timeout, 3 Uncategorized)
+fn fail_error(k: u8) -> Error {
+    match k {
+        0 => eio(),
+        1 => Error::Os { msg: "scripted EAGAIN", code: Errno::EAGAIN },
+        2 => Error::Timeout,
+        _ => Error::Uncategorized(UNCAT_MSG),
+    }
+}
+/// is `e` the scripted error of kind `k`
+fn same_error(e: &Error, k: u8) -> bool {
+    match k {
+        0 => e.matches_errno(Errno::EIO),
+        1 => e.matches_errno(Errno::EAGAIN),
+        2 => matches!(e, Error::Timeout),
+        _ => matches!(e, Error::Uncategorized(m) if *m == UNCAT_MSG),
+    }
 }
 
 #[inline]
@@ -191,6 +245,9 @@ struct SReader<'a> {
     saw_fail: bool,
     saw_eintr: bool,
     saw_panic: bool,
+    /// kind of the first non-EINTR error returned, and the read calls made after it
+    fail_kind: Option<u8>,
+    calls_after_fail: usize,
     /// the script is the canonical representative of the response trace it produced
     canonical: bool,
     thash: u64,
@@ -224,7 +281,8 @@ impl<'a> SReader<'a> {
         if ladder {
             SReader::new_ladder(payload, script, verbose)
         } else {
-            SReader::new(payload, script, &RMENU, verbose)
+            let menu: &'a [usize] = MENU_OVERRIDE.with(|m| m.get()).unwrap_or(&RMENU);
+            SReader::new(payload, script, menu, verbose)
         }
     }
     fn new(payload: &'a [u8], script: &'a [Step], menu: &'a [usize], verbose: bool) -> Self {
@@ -240,6 +298,8 @@ impl<'a> SReader<'a> {
             saw_fail: false,
             saw_eintr: false,
             saw_panic: false,
+            fail_kind: None,
+            calls_after_fail: 0,
             canonical: true,
             thash: 0xcbf29ce484222325,
             cuts: 0,
@@ -265,6 +325,9 @@ impl Read for SReader<'_> {
         self.calls += 1;
         if self.calls > self.horizon {
             panic!("{HORIZON_MSG}");
+        }
+        if self.fail_kind.is_some() {
+            self.calls_after_fail += 1;
         }
         if buf.is_empty() {
             // not an answer of the script: an empty buffer can only receive 0 bytes
@@ -332,9 +395,12 @@ impl Read for SReader<'_> {
                 self.saw_eintr = true;
                 Err(eintr())
             }
-            Step::Fail => {
+            Step::Fail | Step::FailK(_) => {
+                let k = if let Step::FailK(k) = step { k } else { 0 };
                 self.saw_fail = true;
-                Err(eio())
+                self.fail_kind.get_or_insert(k);
+                self.thash = mix(self.thash, 0x1000 + k as u64);
+                Err(fail_error(k))
             }
             Step::Panic => {
                 self.saw_panic = true;
@@ -378,6 +444,7 @@ struct SWriter<'a> {
     saw_zero: bool,
     saw_eintr: bool,
     saw_panic: bool,
+    fail_kind: Option<u8>,
     short: bool,
     sticky: Option<Step>,
     canonical: bool,
@@ -397,6 +464,7 @@ impl<'a> SWriter<'a> {
             saw_zero: false,
             saw_eintr: false,
             saw_panic: false,
+            fail_kind: None,
             short: false,
             sticky: None,
             canonical: true,
@@ -462,10 +530,12 @@ impl Write for SWriter<'_> {
                 self.saw_eintr = true;
                 Err(eintr())
             }
-            Step::Fail => {
+            Step::Fail | Step::FailK(_) => {
+                let k = if let Step::FailK(k) = step { k } else { 0 };
                 self.saw_fail = true;
-                self.sticky = Some(Step::Fail);
-                Err(eio())
+                self.fail_kind.get_or_insert(k);
+                self.sticky = Some(step);
+                Err(fail_error(k))
             }
             Step::Panic => {
                 self.saw_panic = true;
@@ -548,7 +618,7 @@ fn print_trace(t: &Option<Vec<String>>) {
 
 fn rd_summary(rd: &SReader) -> String {
     format!(
-        "reader handed out {} of {} payload bytes in {} calls (saw Ok(0): {}, EINTR: {}, EIO: {})",
+        "reader handed out {} of {} payload bytes in {} calls (saw Ok(0): {}, EINTR: {}, other error: {})",
         rd.pos,
         rd.payload.len(),
         rd.calls,
@@ -601,7 +671,7 @@ fn run_rte(r: &mut Report, case: &str, payload: &[u8], script: &[Step], len0: us
         Ok(Ok(n)) => {
             if rd.saw_fail {
                 r.outcome("read_to_end:error-swallowed");
-                viol(r, OP, "error-swallowed", format!("returned Ok({n}) although the reader returned EIO; {}", rd_summary(&rd)), case);
+                viol(r, OP, "error-swallowed", format!("returned Ok({n}) although the reader returned an error; {}", rd_summary(&rd)), case);
                 return;
             }
             if !rd.saw_eof {
@@ -633,11 +703,19 @@ format!("appended vs delivered: {}", diff_desc(&v[len0..], want)),
         }
         Ok(Err(e)) => {
             if rd.saw_fail {
-                if e.matches_errno(Errno::EIO) {
-                    r.outcome("read_to_end:error-surfaced");
+                let k = rd.fail_kind.unwrap_or(0);
+                if same_error(&e, k) {
+                    r.outcome(if k == 0 { "read_to_end:error-surfaced" } else { "read_to_end:error-surfaced(non-EIO kind)" });
                 } else {
                     r.outcome("read_to_end:wrong-error");
-                    viol(r, OP, "wrong-error", format!("reader failed with EIO, helper returned {e:?}"), case);
+                    viol(r, OP, "wrong-error", format!("reader failed with {}, helper returned {e:?}", KIND_NAMES[k as usize]), case);
+                }
+                if rd.calls_after_fail > 0 {
+                    viol(r, OP, "read-after-error", format!("{} read calls after the reader returned {}; {}", rd.calls_after_fail, KIND_NAMES[k as usize], rd_summary(&rd)), case);
+                }
+                // what was read before the error is kept, after the existing content
+                if v.len() < len0 || v[..len0] != OLD[..len0] || &v[len0..] != want {
+                    viol(r, OP, "data-before-error-lost", format!("after Err({e:?}): vector minus its {len0} old bytes vs delivered: {}", diff_desc(&v[len0.min(v.len())..], want)), case);
                 }
             } else if e.matches_errno(Errno::EINTR) {
                 r.outcome("read_to_end:eintr-surfaced");
@@ -648,6 +726,21 @@ format!("appended vs delivered: {}", diff_desc(&v[len0..], want)),
             }
         }
     }
+}
+
+thread_local! {
+    /// menu override for the canonical-script rule (error-kind scripts use their own delivery menu)
+    static MENU_OVERRIDE: std::cell::Cell<Option<&'static [usize]>> = const { std::cell::Cell::new(None) };
+}
+fn run_rte_menu(r: &mut Report, case: &str, payload: &[u8], script: &[Step], len0: usize, cap0: usize, menu: &'static [usize]) {
+    MENU_OVERRIDE.with(|m| m.set(Some(menu)));
+    run_rte(r, case, payload, script, len0, cap0, false, false);
+    MENU_OVERRIDE.with(|m| m.set(None));
+}
+fn run_rex_menu(r: &mut Report, case: &str, payload: &[u8], script: &[Step], bufsize: usize, menu: &'static [usize]) {
+    MENU_OVERRIDE.with(|m| m.set(Some(menu)));
+    run_rex(r, case, payload, script, bufsize, false, false);
+    MENU_OVERRIDE.with(|m| m.set(None));
 }
 
 // ---------------------------------------------------------------------------
@@ -662,7 +755,8 @@ fn run_rts(r: &mut Report, case: &str, payload: &[u8], script: &[Step], menu: &[
     s.push_str(old);
     let mut rd = if ladder { SReader::new_ladder(payload, script, verbose) } else { SReader::new(payload, script, menu, verbose) };
     let res = catch(|| rd.read_to_string(&mut s));
-    if ladder {
+    if ladder || ident == u64::MAX {
+        // generated once per (state, script): counted by the canonical-script rule
         if rd.counts_as_distinct() {
             r.nontrivial_unique();
         }
@@ -720,7 +814,7 @@ fn run_rts(r: &mut Report, case: &str, payload: &[u8], script: &[Step], menu: &[
         Ok(Ok(n)) => {
             if rd.saw_fail {
                 r.outcome("read_to_string:error-swallowed");
-                viol(r, OP, "error-swallowed", format!("returned Ok({n}) although the reader returned EIO; {}", rd_summary(&rd)), case);
+                viol(r, OP, "error-swallowed", format!("returned Ok({n}) although the reader returned an error; {}", rd_summary(&rd)), case);
                 return rd.cuts;
             }
             if !rd.saw_eof {
@@ -752,7 +846,19 @@ fn run_rts(r: &mut Report, case: &str, payload: &[u8], script: &[Step], menu: &[
             if rd.saw_fail {
                 // "surface any other error": the reader's own error, also when the bytes read so far end inside a
                 // character (another error in its place means the reader's was not surfaced); the string stays
-                if e.matches_errno(Errno::EIO) {
+                let k = rd.fail_kind.unwrap_or(0);
+                if rd.calls_after_fail > 0 {
+                    viol(r, OP, "read-after-error", format!("{} read calls after the reader returned {}; {}", rd.calls_after_fail, KIND_NAMES[k as usize], rd_summary(&rd)), case);
+                }
+                if delivered_utf8 {
+                    // what was read before the error is kept (it is valid UTF-8), after the existing content
+                    let mut want = old.as_bytes().to_vec();
+                    want.extend_from_slice(delivered);
+                    if raw != want {
+                        viol(r, OP, "data-before-error-lost", format!("after Err({e:?}): string vs old + delivered: {}", diff_desc(&raw, &want)), case);
+                    }
+                }
+                if same_error(&e, k) {
                     r.outcome(if delivered_utf8 { "read_to_string:error-surfaced" } else { "read_to_string:error-surfaced-over-invalid-utf8" });
                 } else {
                     r.outcome("read_to_string:wrong-error");
@@ -760,7 +866,7 @@ fn run_rts(r: &mut Report, case: &str, payload: &[u8], script: &[Step], menu: &[
                         r,
                         OP,
                         "wrong-error",
-                        format!("reader failed with EIO after delivering {} ({}UTF-8), helper returned {e:?}", brief(delivered), if delivered_utf8 { "" } else { "not " }),
+                        format!("reader failed with {} after delivering {} ({}UTF-8), helper returned {e:?}", KIND_NAMES[k as usize], brief(delivered), if delivered_utf8 { "" } else { "not " }),
                         case,
                     );
                 }
@@ -830,7 +936,7 @@ fn run_rex(r: &mut Report, case: &str, payload: &[u8], script: &[Step], bufsize:
         Ok(Ok(())) => {
             if rd.saw_fail {
                 r.outcome("read_exact:error-swallowed");
-                viol(r, OP, "error-swallowed", format!("returned Ok although the reader returned EIO; {}", rd_summary(&rd)), case);
+                viol(r, OP, "error-swallowed", format!("returned Ok although the reader returned an error; {}", rd_summary(&rd)), case);
             } else if rd.pos < bufsize {
                 r.outcome("read_exact:ok-on-short-read");
                 viol(r, OP, "ok-on-short-read", format!("returned Ok for a {bufsize}-byte buffer; {}", rd_summary(&rd)), case);
@@ -850,11 +956,15 @@ fn run_rex(r: &mut Report, case: &str, payload: &[u8], script: &[Step], bufsize:
         }
         Ok(Err(e)) => {
             if rd.saw_fail {
-                if e.matches_errno(Errno::EIO) {
+                let k = rd.fail_kind.unwrap_or(0);
+                if same_error(&e, k) {
                     r.outcome("read_exact:error-surfaced");
                 } else {
                     r.outcome("read_exact:wrong-error");
-                    viol(r, OP, "wrong-error", format!("reader failed with EIO, helper returned {e:?}"), case);
+                    viol(r, OP, "wrong-error", format!("reader failed with {}, helper returned {e:?}", KIND_NAMES[k as usize]), case);
+                }
+                if rd.calls_after_fail > 0 {
+                    viol(r, OP, "read-after-error", format!("{} read calls after the reader returned {}; {}", rd.calls_after_fail, KIND_NAMES[k as usize], rd_summary(&rd)), case);
                 }
             } else if e.matches_errno(Errno::EINTR) {
                 r.outcome("read_exact:eintr-surfaced");
@@ -1111,11 +1221,12 @@ fn run_write(
             // the writer's own error; EINTR may be retried or returned (the statement leaves it open)
             if w.saw_fail {
                 // the writer failed (and stays failed): "return the writer's error" means that one
-                if e.matches_errno(Errno::EIO) {
+                let k = w.fail_kind.unwrap_or(0);
+                if same_error(&e, k) {
                     r.outcome(&oc("error-surfaced"));
                 } else {
                     r.outcome(&oc("wrong-error"));
-                    viol(r, op, "wrong-error", format!("writer failed with EIO, helper returned {e:?}"), case);
+                    viol(r, op, "wrong-error", format!("writer failed with {}, helper returned {e:?}", KIND_NAMES[k as usize]), case);
                 }
             } else if e.matches_errno(Errno::EINTR) && w.saw_eintr {
                 r.outcome(&oc("eintr-returned"));
@@ -1257,6 +1368,8 @@ const N_PSYM: usize = PSYMS.len();
 struct Bounds {
     /// read_to_string scripts over the character-splitting piece alphabet
     l_pieces: usize,
+    /// error-kind scripts
+    l_errk: usize,
     l_read: usize,
     l_rts: usize,
     l_rts_invalid: usize,
@@ -1278,9 +1391,9 @@ const WA_LENS: [usize; 5] = [0, 1, 2, 5, 33];
 
 fn c15(args: &Args) -> Report {
     let b = if args.thorough {
-        Bounds { l_pieces: 5, l_read: 7, l_rts: 5, l_rts_invalid: 3, l_write: 9, cuts_long: 3, lad_read: 5, lad_big_cut: 0, lad_rts: 4, lad_pieces: 4, lad_write: 3 }
+        Bounds { l_pieces: 5, l_errk: 5, l_read: 7, l_rts: 5, l_rts_invalid: 3, l_write: 9, cuts_long: 3, lad_read: 5, lad_big_cut: 0, lad_rts: 4, lad_pieces: 4, lad_write: 3 }
     } else {
-        Bounds { l_pieces: 4, l_read: 5, l_rts: 4, l_rts_invalid: 2, l_write: 7, cuts_long: 2, lad_read: 4, lad_big_cut: 1, lad_rts: 3, lad_pieces: 3, lad_write: 3 }
+        Bounds { l_pieces: 4, l_errk: 4, l_read: 5, l_rts: 4, l_rts_invalid: 2, l_write: 7, cuts_long: 2, lad_read: 3, lad_big_cut: 1, lad_rts: 2, lad_pieces: 3, lad_write: 3 }
     };
     let mut items: Vec<Isolated> = Vec::new();
 
@@ -1480,6 +1593,116 @@ fn c15(args: &Args) -> Report {
         }));
     }
 
+    // ---- error kinds x start capacity: small payloads, EVERY start capacity 0..=40 (so that each prefix of pieces can
+    //      fill the buffer exactly and the next answer lands on the exact-fit probe read), answers incl. EIO, EAGAIN,
+    //      Error::Timeout, Error::Uncategorized
+    for plen in [4usize, 8, 12] {
+        for len0 in [0usize, 5] {
+            let l = b.l_errk;
+            items.push(isolated(format!("errkinds-read_to_end-p{plen}-l{len0}"), move || {
+                let payload = mk_payload(plen);
+                let mut r = Report::new();
+                let mut cs = String::new();
+                let mut steps: Vec<Step> = Vec::new();
+                for spare in 0..=40usize {
+                    let cap0 = len0 + spare;
+                    let prefix = case_prefix(json!({"op":"read_to_end","menu":"errkinds","payload":show_bytes(&payload),"len0":len0,"cap0":cap0}));
+                    for_each_script(N_ESYM, l, l, |idx| {
+                        steps.clear();
+                        steps.extend(idx.iter().map(|&i| esym(i)));
+                        case_string(&mut cs, &prefix, &steps, false);
+                        set_case(&cs);
+                        run_rte_menu(&mut r, &cs, &payload, &steps, len0, cap0, &EMENU);
+                        clear_case();
+                        if plen == 8 && len0 == 0 && spare == 4 && steps == [Step::Deliver(4), Step::FailK(1)] {
+                            r.sample(case_json(&cs));
+                        }
+                    });
+                }
+                r
+            }));
+        }
+    }
+    for text in ["abcd", "a\u{e9}\u{20ac}ab"] {
+        for old in ["", OLD_STR] {
+            let l = b.l_errk;
+            items.push(isolated(format!("errkinds-read_to_string-p{}-o{}", text.len(), old.len()), move || {
+                let payload = text.as_bytes();
+                let mut r = Report::new();
+                let mut cs = String::new();
+                let mut steps: Vec<Step> = Vec::new();
+                for spare in 0..=40usize {
+                    let prefix = case_prefix(json!({"op":"read_to_string","menu":"errkinds","payload":show_bytes(payload),"old":old,"spare":spare}));
+                    for_each_script(N_ESYM, l, l, |idx| {
+                        steps.clear();
+                        steps.extend(idx.iter().map(|&i| esym(i)));
+                        case_string(&mut cs, &prefix, &steps, false);
+                        set_case(&cs);
+                        run_rts(&mut r, &cs, payload, &steps, &EMENU, old, spare, u64::MAX, false, false);
+                        clear_case();
+                    });
+                }
+                r
+            }));
+        }
+    }
+    {
+        let l = b.l_errk;
+        items.push(isolated("errkinds-read_exact", move || {
+            let payload = mk_payload(5);
+            let mut r = Report::new();
+            let mut cs = String::new();
+            let mut steps: Vec<Step> = Vec::new();
+            for bufsize in 0..=7usize {
+                let prefix = case_prefix(json!({"op":"read_exact","menu":"errkinds","payload":show_bytes(&payload),"bufsize":bufsize}));
+                for_each_script(N_ESYM, l, l, |idx| {
+                    steps.clear();
+                    steps.extend(idx.iter().map(|&i| esym(i)));
+                    case_string(&mut cs, &prefix, &steps, false);
+                    set_case(&cs);
+                    run_rex_menu(&mut r, &cs, &payload, &steps, bufsize, &EMENU);
+                    clear_case();
+                });
+            }
+            r
+        }));
+        items.push(isolated("errkinds-write", move || {
+            let mut r = Report::new();
+            let cases = fmt_cases();
+            let mut cs = String::new();
+            let mut steps: Vec<Step> = Vec::new();
+            let p5 = mk_payload(5);
+            let mut targets: Vec<(&'static str, String, Vec<u8>, Box<dyn Fn(&mut SWriter<'_>) -> tiny_std::Result<()>>)> = Vec::new();
+            {
+                let p = p5.clone();
+                targets.push(("write_all", case_prefix(json!({"op":"write_all","menu":"errkinds","payload":show_bytes(&p5)})), p5.clone(), Box::new(move |w| w.write_all(&p))));
+            }
+            for i in [4usize, 6] {
+                let f = cases[i].run;
+                targets.push((
+                    "write_fmt",
+                    case_prefix(json!({"op":"write_fmt","menu":"errkinds","fmt":cases[i].name,"payload":show_bytes(cases[i].expect.as_bytes())})),
+                    cases[i].expect.clone().into_bytes(),
+                    Box::new(move |w| f(w)),
+                ));
+            }
+            for (op, prefix, payload, call) in &targets {
+                for_each_script(N_EWSYM, l, l, |idx| {
+                    steps.clear();
+                    steps.extend(idx.iter().map(|&i| ewsym(i)));
+                    if steps[..steps.len().saturating_sub(1)].iter().any(|s| matches!(s, Step::Zero | Step::Fail | Step::FailK(_))) {
+                        return;
+                    }
+                    case_string(&mut cs, prefix, &steps, true);
+                    set_case(&cs);
+                    run_write(&mut r, op, &cs, payload, &steps, &EWMENU, &**call, false);
+                    clear_case();
+                });
+            }
+            r
+        }));
+    }
+
     // ---- write_all / write_fmt: all writer scripts (sticky entries only in last position)
     let wa: Vec<(String, Vec<u8>, Option<usize>)> = WA_LENS
         .iter()
@@ -1520,7 +1743,7 @@ fn c15(args: &Args) -> Report {
                     steps.clear();
                     steps.extend(idx.iter().map(|&i| wsym(i)));
                     // entries behind a sticky Ok(0)/EIO can never be reached: not cases of their own
-                    if steps[..steps.len().saturating_sub(1)].iter().any(|s| matches!(s, Step::Zero | Step::Fail)) {
+                    if steps[..steps.len().saturating_sub(1)].iter().any(|s| matches!(s, Step::Zero | Step::Fail | Step::FailK(_))) {
                         return;
                     }
                     case_string(&mut cs, &prefix, &steps, true);
@@ -1727,6 +1950,10 @@ fn c15(args: &Args) -> Report {
          read_to_string likewise (multi-byte text, old in {{\"\",\"ab\u{20ac}\"}}, scripts <= {lads}); read_exact with buffer sizes from the ladder x payload lengths {{b-1,b,b+1,100000}}; \
          write_fmt with every sequence of 1..={ladp} pieces of lengths {PIECE_LENS:?} (each piece its own letters) in 3 shapes (arguments only / a short literal before each argument / a 130-byte literal after the first argument), \
          and write_all of those lengths, through every writer script of length <= {ladw} over {{A1,A100,AALL,EINTR}}. \
+         ERROR KINDS x START CAPACITY: read_to_end (payload lengths 4,8,12; initial len {{0,5}}) and read_to_string (\"abcd\", \"a\u{e9}\u{20ac}ab\"; old {{\"\",\"ab\u{20ac}\"}}) with EVERY spare capacity 0..=40 \
+         x every script of length <= {lek} over {{D1,D2,D4,DALL,Ok(0),EINTR,EIO,EAGAIN,Error::Timeout,Error::Uncategorized}} (so each error kind also lands on the exact-fit probe read after any prefix of pieces filled the start capacity); \
+         read_exact (5 bytes, buffers 0..=7) and write_all/write_fmt (5 bytes, 2 formats; A1,A2,AALL,EINTR,Ok(0)*, the four error kinds*) with the same error alphabet. \
+         Whenever the reader returned a non-EINTR error: the helper's error must be that very error (errno / variant), no read call may follow it, and read_to_end / read_to_string (UTF-8 data) keep what was read before it. \
          PANIC ENTRY `P`: in every enumeration above, each script may also end in a call in which the reader/writer panics (unwinds through the helper; \
          for the large read_to_end/read_exact/write enumerations only scripts one shorter than the bound get this ending). After the unwind a String must be valid UTF-8 \
          (type invariant) and unchanged if the bytes appended so far are not UTF-8; a Vec keeps its existing content; what a writer accepted is a prefix of the payload. \
@@ -1742,6 +1969,7 @@ fn c15(args: &Args) -> Report {
         li = b.l_rts_invalid,
         lw = b.l_write,
         lpc = b.l_pieces,
+        lek = b.l_errk,
         ladr = b.lad_read,
         ladcut = b.lad_big_cut,
         lads = b.lad_rts,
@@ -1754,12 +1982,15 @@ fn c15(args: &Args) -> Report {
     r.bound("max_script_len_read_to_string", b.l_rts);
     r.bound("max_script_len_write", b.l_write);
     r.bound("max_script_len_read_to_string_pieces", b.l_pieces);
+    r.bound("max_script_len_error_kinds", b.l_errk);
+    r.bound("error_kinds", KIND_NAMES.to_vec());
+    r.bound("error_kind_start_spare_capacities", "0..=40");
     r.bound("reader_menu", "D1 D2 D31 D32 D33 DALL Z(Ok(0)) I(EINTR) F(EIO) P(panic, last entry only)");
     r.bound("writer_menu", "A1 A2 A4 AALL I(EINTR) Z(Ok(0), sticky) F(EIO, sticky) P(panic, last entry only)");
     r.bound("shards", n_items);
     r.note("not covered: the print!/println!/eprint! path (tiny-std/src/unix/print.rs) writes through a raw syscall; it needs the syscall seam (S2) and is left to that harness");
     r.note("EINTR from a writer: write_all retries it (io.rs Write::write_all); the oracle accepts retry or returning EINTR, since the statement only promises retry for readers");
-    r.note("on an I/O error the statement fixes the returned error: whenever the reader/writer returned EIO and the helper returns Err, it must carry errno EIO (also when a String's new bytes are not UTF-8 at that point); buffer contents after an error are not checked, except that a String must stay valid UTF-8 and is unchanged when the delivered bytes are not UTF-8");
+    r.note("on an I/O error the statement fixes the returned error: whenever the reader/writer returned a non-EINTR error (EIO, EAGAIN, Error::Timeout, Error::Uncategorized) and the helper returns Err, it must be that very error (also when a String's new bytes are not UTF-8 at that point), no read call may follow it, read_to_end keeps old content ++ the bytes read before it and read_to_string likewise when those bytes are UTF-8; a String must stay valid UTF-8 and is unchanged when the delivered bytes are not UTF-8");
     r
 }
 
@@ -1883,7 +2114,7 @@ mod tests {
             let mut canon = 0u64;
             for_each_seq(N_WSYM, 5, |idx| {
                 let steps: Vec<Step> = idx.iter().map(|&i| wsym(i)).collect();
-                if steps[..steps.len().saturating_sub(1)].iter().any(|s| matches!(s, Step::Zero | Step::Fail)) {
+                if steps[..steps.len().saturating_sub(1)].iter().any(|s| matches!(s, Step::Zero | Step::Fail | Step::FailK(_))) {
                     return;
                 }
                 let mut w = SWriter::new(&steps, &WMENU, plen, true);
